@@ -18,7 +18,8 @@ import (
 // C05 — print then parse gives back the same program under all 256 styles.
 // C18 — printing is idempotent, deterministic, pure; a failing writer is an error.
 
-// config returns the i-th of the 256 printer configurations.
+// config returns the i-th of the 256 printer configurations; i >= 256 selects
+// another indentation width for those that indent with spaces.
 func config(i int) printer.Config {
 	var c printer.Config
 	bit := func(k int) bool { return i>>k&1 == 1 }
@@ -28,7 +29,8 @@ func config(i int) printer.Config {
 		c.Indent = printer.Tab
 	}
 	if bit(1) {
-		c.Width = 2
+		// bits 8 and up select another width
+		c.Width = []int{2, 1, 4, 8, 16, 33}[(i>>8)%6]
 	}
 	if bit(2) {
 		c.Redir = printer.Before
@@ -55,7 +57,7 @@ func config(i int) printer.Config {
 
 type c05Case struct {
 	Src string `json:"src"`
-	Cfg int    `json:"config"` // 0..255, see config()
+	Cfg int    `json:"config"` // 0..255 (+ 256 x width selector), see config()
 }
 
 func parseOne(name, src string) (ast.Command, error) {
@@ -263,6 +265,34 @@ func systematicPrograms(fn func(p *gen.Program, src string)) int {
 	return n
 }
 
+// deepSources returns multi-line programs nested deeper than any fixed
+// indentation table would reach (19 levels).
+func deepSources() []string {
+	open := []string{"{\n", "(\n", "if a; then\n", "while a; do\n", "for i in a; do\n", "case x in\na)\n", "until a; do\n", "f() {\n"}
+	close := []string{"}\n", ")\n", "fi\n", "done\n", "done\n", ";;\nesac\n", "done\n", "}\n"}
+	var out []string
+	for start := 0; start < len(open); start++ {
+		for _, mixed := range []bool{false, true} {
+			var b strings.Builder
+			var stack []int
+			for d := 0; d < 19; d++ {
+				k := start
+				if mixed {
+					k = (start + d) % len(open)
+				}
+				b.WriteString(open[k])
+				stack = append(stack, k)
+			}
+			b.WriteString("b <<E\nbody\nE\n")
+			for d := len(stack) - 1; d >= 0; d-- {
+				b.WriteString(close[stack[d]])
+			}
+			out = append(out, b.String())
+		}
+	}
+	return out
+}
+
 func TestC05(t *testing.T) {
 	st := newStats("C05")
 	defer st.Write()
@@ -301,11 +331,23 @@ func TestC05(t *testing.T) {
 		for cfg := 0; cfg < 256; cfg++ {
 			run(t, p, src, cfg, false)
 		}
+		for wsel := 1; wsel < 6; wsel++ {
+			// other indentation widths, on a space-indenting configuration
+			run(t, p, src, (i*8+wsel*37)%256|3|wsel<<8, false)
+		}
 		if i%53 == 0 {
 			st.Sample(map[string]any{"src": src, "configs": "all 256"})
 		}
 		featStats(st, p)
 	})
+	if sh == 0 {
+		for di, src := range deepSources() {
+			for cfg := 0; cfg < 256; cfg += 5 {
+				run(t, &gen.Program{Feat: map[string]int{"kind:group": 19}}, src, (cfg+di)%256|(cfg%6)<<8, false)
+			}
+			st.Class("deeply_nested_program")
+		}
+	}
 	st.Note("systematic: %d programs (outer construct x slot x inner construct, single-line / multi-line / here-document variants) x the complete space of 256 printer configurations", n)
 
 	// (b) sampled programs x 16 drawn configurations
@@ -325,8 +367,9 @@ func TestC05(t *testing.T) {
 		}
 		src := gen.Render(p.Stream, lay).Src
 		base := rapid.IntRange(0, 255).Draw(rt, "config")
+		wsel := rapid.SampledFrom([]int{0, 0, 0, 1, 2, 3, 4, 5}).Draw(rt, "width")
 		for k := 0; k < 16; k++ {
-			run(rt, p, src, (base+k*37)%256, true)
+			run(rt, p, src, (base+k*37)%256|wsel<<8, true)
 		}
 		featStats(st, p)
 		st.Sample(map[string]any{"src": src, "first_config": base})
@@ -373,13 +416,21 @@ func TestC18(t *testing.T) {
 			return
 		}
 		for cfg := 0; cfg < 256; cfg += 3 {
-			run(t, p, src, (cfg+i)%256, false)
+			run(t, p, src, (cfg+i)%256|(cfg%6)<<8, false)
 		}
 		if i%53 == 0 {
 			st.Sample(map[string]any{"src": src, "configs": "every third of 256"})
 		}
 	})
 	st.Note("systematic: %d programs x 86 of the 256 printer configurations (rotating), each with a writer failing after every k bytes", n)
+	if sh == 0 {
+		for di, src := range deepSources() {
+			for cfg := 0; cfg < 256; cfg += 17 {
+				run(t, &gen.Program{Feat: map[string]int{"kind:group": 19}}, src, (cfg+di)%256|(cfg%6)<<8, false)
+			}
+			st.Class("deeply_nested_program")
+		}
+	}
 
 	cnt := 8000
 	if thorough() {
@@ -403,8 +454,9 @@ func TestC18(t *testing.T) {
 			st.Class("output_larger_than_write_buffer")
 		}
 		base := rapid.IntRange(0, 255).Draw(rt, "config")
+		wsel := rapid.SampledFrom([]int{0, 0, 0, 1, 2, 3, 4, 5}).Draw(rt, "width")
 		for k := 0; k < 8; k++ {
-			run(rt, p, src, (base+k*37)%256, true)
+			run(rt, p, src, (base+k*37)%256|wsel<<8, true)
 		}
 		featStats(st, p)
 		st.Sample(map[string]any{"src": src, "first_config": base})
